@@ -150,6 +150,8 @@ pub struct RandomDirector {
     reconnected_once: bool,
     /// the benign continuation may reconnect once when nothing is in transit (see `pending`)
     heal: bool,
+    /// the bytes last injected are a PINGRESP (keep-alive traffic does not count as progress)
+    ping_inbound: bool,
     /// the broker answers with success codes only and never varies them (aged / fresh twins)
     fixed_acks: bool,
     now_ms: u64,
@@ -202,6 +204,7 @@ impl RandomDirector {
             force_drop: false,
             reconnected_once: false,
             heal: false,
+            ping_inbound: false,
             fixed_acks: false,
             now_ms: 0,
             stalls: 0,
@@ -497,6 +500,7 @@ impl RandomDirector {
                 if self.chance(0.2) { props.push(Prop { id: 0x09, n: 0, s: vec![9, 8, 7], t: vec![] }); }
                 if self.chance(0.3) { props.push(user(1)); }
                 if self.chance(0.1) { props.push(user(2)); }
+                if self.chance(0.1) { props.push(Prop { id: 0x23, n: self.rng.gen_range(1..6), s: vec![], t: vec![] }); }
             }
             "subscribe" => {
                 if self.chance(0.3) { props.push(Prop { id: 0x0B, n: self.rng.gen_range(1..20000), s: vec![], t: vec![] }); }
@@ -508,7 +512,8 @@ impl RandomDirector {
         }
         if self.chance(self.p.p_invalid_props) {
             // something that is not allowed here, or an illegal value
-            let bad = match self.rng.gen_range(0..6) {
+            let bad = match self.rng.gen_range(0..8) {
+                6 | 7 => Prop { id: 0x23, n: 0, s: vec![], t: vec![] },
                 0 => Prop { id: 0x21, n: 5, s: vec![], t: vec![] },
                 1 => Prop { id: 0x11, n: 10, s: vec![], t: vec![] },
                 2 => Prop { id: 0x01, n: 2, s: vec![], t: vec![] },
@@ -592,7 +597,10 @@ impl RandomDirector {
 
 impl Director for RandomDirector {
     fn write(&mut self, _view: &View, offered: &[u8]) -> IoDec {
-        self.idle = 0;
+        // keep-alive traffic is no progress towards quiescence (benign continuation)
+        if !(self.benign && offered == [0xC0, 0x00]) {
+            self.idle = 0;
+        }
         self.now_ms = _view.now_ms;
         if !self.benign {
             if self.chance(self.p.p_fault) {
@@ -629,7 +637,9 @@ impl Director for RandomDirector {
             }
             return IoDec::Pending;
         }
-        self.idle = 0;
+        if !(self.benign && self.ping_inbound) {
+            self.idle = 0;
+        }
         if !self.benign {
             if self.chance(self.p.p_fault) {
                 return if self.chance(0.5) { IoDec::Eof } else { IoDec::Err };
@@ -691,7 +701,9 @@ impl Director for RandomDirector {
         // while the client spins on an overdue timer the broker's (slow) answer may arrive
         self.now_ms = _view.now_ms;
         if !self.broker.outq.is_empty() && self.now_ms >= self.broker.hold_until && (self.benign || self.chance(0.5)) {
-            return self.broker.outq.pop_front();
+            let pkt = self.broker.outq.pop_front();
+            self.ping_inbound = pkt.as_deref() == Some(&[0xD0, 0x00][..]);
+            return pkt;
         }
         None
     }
@@ -736,6 +748,7 @@ impl Director for RandomDirector {
                 self.broker.outq.push_front(pkt);
                 return PendDec::Inject(dup);
             }
+            self.ping_inbound = pkt == [0xD0, 0x00];
             return PendDec::Inject(pkt);
         }
         if self.benign {
